@@ -45,7 +45,8 @@ def run(ctx):
     rep.guarded("invert", V + "Term::render_svg", lambda: rule_invert(facts, rep))
     rep.guarded("names", V, lambda: rule_names(facts, rep))
     rep.guarded("balance", V, lambda: rule_balance(facts, rep))
-    for r, n in (("taint", 8), ("pairing", 9), ("classes", 11), ("invert", 4), ("names", 6), ("balance", 4)):
+    rep.guarded("text", V + "Term::render_svg", lambda: rule_text(facts, rep))
+    for r, n in (("taint", 8), ("pairing", 9), ("classes", 11), ("invert", 4), ("names", 6), ("balance", 4), ("text", 5)):
         rep.floor(r, n)
 
 
@@ -337,6 +338,43 @@ def rule_names(facts, rep):
     rep.check(ok, "names", r["path"], "height-counts-every-line", "height = styled_lines.len() * line_height + padding", loc(r))
     fgc = hir.simp(lets["fg_color"][0]["init"])
     rep.check(hir.place_str(fgc["args"][0]) == "self.fg_color" and hir.place_str(fgc["args"][1]) == "self.palette", "names", r["path"], "default-colours-through-palette", "", loc(r))
+
+
+def rule_text(facts, rep):
+    """Every fragment of every line reaches the foreground span writer unless it is empty; the sheet is computed after the
+    invert pre-pass (so it describes the colours the spans really carry)."""
+    r = facts.body("anstyle_svg", V + "Term::render_svg")
+    calls = hir.visit_with_conds(r["hir"], lambda n: hir.is_call(n, V + "write_fg_span", V + "write_bg_span"))
+    for n, frames in calls:
+        which = hir.callee(n).split("::")[-1]
+        loops = [f for f in frames if f.get("kind") == "loop"]
+        inner = frames[frames.index(loops[-1]) + 1:] if loops else frames
+        conds = [f for f in inner if f.get("kind") == "if"]
+        ok = True
+        why = []
+        for f in conds:
+            c = hir.simp(f["expr"])
+            is_empty_test = hir.is_call(c, "is_empty") and hir.is_local(c["args"][0], "fragment")
+            if not (is_empty_test and f["val"] is False):
+                ok = False
+                why.append(("" if f["val"] else "!") + hirpp.expr(c)[:70])
+        rep.check(ok and len(loops) == 2, "text", r["path"], f"{which}:every-non-empty-fragment-is-written",
+                  f"inside the per-fragment loop the span writer may be skipped only for an empty fragment; extra conditions: {why}", loc(r, n))
+        rep.check(hir.is_local(n["args"][2], "fragment") and hir.is_local(n["args"][1], "style"), "text", r["path"], f"{which}:gets-the-loop's-own-fragment", "", loc(r, n))
+    # loops run over `line` / `styled_lines` in order
+    fl = [l for l in (hir.for_loop(x) for x in hir.walk(r["hir"]) if x.get("k") == "match" and x.get("src") == "ForLoopDesugar") if l]
+    srcs = [hirpp.expr(hir.peel(l[1])) for l in fl]
+    rep.check(srcs.count("$line") == 2 and "$styled_lines" in srcs, "text", r["path"], "loops-over-every-line-and-fragment", f"{srcs}", loc(r))
+    # order: invert pre-pass, then the sheet
+    order = {id(n): i for i, n in enumerate(hir.walk(r["hir"]))}
+    inv = [n for n in hir.walk(r["hir"]) if n.get("k") == "if" and hir.is_call(hir.simp(n["c"]), "anstyle::effect::Effects::contains")
+           and hir.is_def(hir.simp(n["c"])["args"][1], "Effects::INVERT")]
+    sheet = [n for n in hir.walk(r["hir"]) if hir.is_call(n, V + "color_styles")]
+    split = [n for n in hir.walk(r["hir"]) if hir.is_call(n, V + "split_lines")]
+    ok = len(inv) == 1 and len(sheet) == 1 and len(split) == 1 and order[id(inv[0])] < order[id(sheet[0])] and order[id(inv[0])] < order[id(split[0])]
+    rep.check(ok, "text", r["path"], "sheet-and-lines-computed-after-the-invert-pass",
+              "color_styles(..) and split_lines(..) must see the post-invert runs: a sheet built before the swap defines classes the "
+              "inverted spans do not use", loc(r))
 
 
 # ---- tag balance -----------------------------------------------------------------------------
